@@ -287,7 +287,7 @@ var floors = map[string]map[string]int{
 	"C06": {
 		"timeout:worker-while-executing": 40, "timeout:worker-while-idle": 200, "timeout:operation-without-waiters": 400,
 		"timeout:size-class-queue-without-workers": 20, "retry-limit:task-failed-after-too-many-attempts": 3,
-		"retry-limit:with-zero-retries-configured": 3,
+		"retry-limit:with-zero-retries-configured":           3,
 		"timeout:size-class-queue-removed-with-queued-tasks": 8, "kill:operation-gone-during-authorization": 20,
 		"leak-check:executed": 100, "synchronize:idle-timeout": 100, "synchronize:cancelled-while-blocked": 80,
 		"terminate:waits-for-executing-task": 12, "last-operation-abandoned:task-cancelled": 100, "stress-round": 6,
